@@ -28,6 +28,22 @@ Definition get (x : arr) (idx : list nat) : option A :=
     end
   else None.
 
+(* Array::get_mut (and IndexMut) followed by a write through the reference: the array with the addressed element
+   replaced; None where get_mut returns None *)
+Fixpoint replace_nth (l : list A) (n : nat) (v : A) : list A :=
+  match l, n with
+  | [], _ => []
+  | _ :: t, O => v :: t
+  | a :: t, S k => a :: replace_nth t k v
+  end.
+Definition set (x : arr) (idx : list nat) (v : A) : option arr :=
+  if length idx =? dimensions x then
+    match flat_index (astrides x) (ashape x) idx with
+    | Some f => if f <? length (adata x) then Some {| adata := replace_nth (adata x) f v; ashape := ashape x |} else None
+    | None => None
+    end
+  else None.
+
 (* View<'a,T>{data: &data[offset..], shape: RemovedAxis, strides: RemovedAxis} *)
 Record view := { vdata : list A; vshape : shape; vstrides : list nat }.
 
